@@ -148,6 +148,7 @@ class Robust(Part):
             trace.append({"ev": "batch", "kind": kind, "nparams": n, "userm": um, "designs": designs, "exc": exc})
 
         intvec = [rng.random() < 0.4]
+        arrayvec = [rng.random() < 0.35]
 
         def lattice_vector():
             if kind == "gradient":
@@ -188,7 +189,11 @@ class Robust(Part):
                     if hood & used:
                         continue
                     used |= hood
-                    batch.append(Individual(v))
+                    if arrayvec[0] and not intvec[0]:
+                        import numpy as np
+                        batch.append(Individual(np.array(v, dtype=float)))      # designs held as numpy arrays (CMA-ES / CEM rows, array-based generators)
+                    else:
+                        batch.append(Individual(v))
                     if case.get("faulty") and rng.random() < 0.4:
                         failing[tuple(v)] = rng.randint(1, 2)      # this design is re-sampled once or twice before it is evaluated
                     if case.get("twins") and len(batch) < size and rng.random() < 0.5:
